@@ -194,6 +194,7 @@ FLAGS = (
                                # flag examined in step 4 of the next time step
     "termwhen_before_compose", # terminate-when conditions examined before the compose block runs
     "comp_inv_after_sub",      # scenario invariants also checked when a sub-scenario returns
+    "limit_on_entry_checks_invoker",  # `do X until c`, c true on entry: invoker's invariants checked
     "limit_counts_suspended_time",  # `terminate after` counts the steps a suspended scenario missed
 )
 
@@ -285,6 +286,9 @@ class Machine:
         self.dt_raw = timestep
         self.flags = dict(flags or {})
         self.defects = dict(defects or {})
+        # with a defect model the machine only names a failure: corners the reference leaves
+        # open then follow the implementation instead of ending the run as unjudged
+        self.lenient = any(self.defects.values())
         self.ti_flags = ti_flags or {}
         self.consulted = set()
         self.t = 0
@@ -337,6 +341,8 @@ class Machine:
 
             dec = dec_of(n) / dec_of(self.dt_raw)
             if math.ceil(dec) != math.ceil(flt):
+                if self.lenient:
+                    return flt
                 raise Unjudged("duration/timestep differs between decimal and binary reading")
             return dec
         return flt
@@ -591,11 +597,17 @@ class Machine:
                 self.check_guards(f[1], False)
             elif k == "waitc":
                 # ["waitc", inst, spec, fresh]
-                if not f[3]:
+                fresh = f[3]
+                if not fresh:
                     self.check_guards(f[1], False)
                 f[3] = False
                 if self.spec_holds(f[2]):
                     block.pop()
+                    # nothing was waited for: whether this counts as a resumption (invariant
+                    # check) is not documented
+                    if fresh and f[1].dfn.get("inv") and \
+                            self.flag("limit_on_entry_checks_invoker"):
+                        self.check_guards(f[1], False)
                 else:
                     return ("yield", WAIT)
             elif k == "try":
@@ -664,8 +676,9 @@ class Machine:
         if k == "terminate_sim":
             if ctx == "comp":
                 mine = self.running_scenarios(inst.scen)
-                if any(not m.finished for S in self.running_scenarios() if S not in mine
-                       for m in S.monitors):
+                if not self.lenient and any(
+                        not m.finished for S in self.running_scenarios() if S not in mine
+                        for m in S.monitors):
                     raise Unjudged("terminate simulation in a sub-scenario whose ancestors "
                                    "have monitors")
             block.append(["resume", inst])
@@ -771,6 +784,10 @@ class Machine:
             if spec[0] == "until" and self.flag("until_starts_first"):
                 self.check_guards(Inst(self.behs[f[3]], "beh", inst.scen), True)
             block.pop()
+            # no sub-behaviour ran: whether the invoker counts as "resumed after a
+            # sub-behaviour terminates" (invariant check) is not documented
+            if inst.dfn.get("inv") and self.flag("limit_on_entry_checks_invoker"):
+                self.check_guards(inst, False)
             return None
         if first:
             sub = Inst(self.behs[f[3]], "beh", inst.scen)
@@ -824,6 +841,8 @@ class Machine:
                 for n in f[3]:
                     self.stop_scenario(self.start_scenario(self.scens[n], S))
             block.pop()
+            if inst.dfn.get("inv") and self.flag("limit_on_entry_checks_invoker"):
+                self.check_guards(inst, False)
             return None
         # defect model comp_onelist: the implementation keeps ONE list of running sub-scenarios
         # per scenario, replaced by every `do`; a `do` suspended under a pre-empted block then
@@ -857,7 +876,7 @@ class Machine:
         for x in lst:
             r = self.step_scenario(x)
             if r == ENDSIM:
-                if len(lst) > 1:
+                if len(lst) > 1 and not self.lenient:
                     raise Unjudged("terminate simulation under a parallel do")
                 return ("yield", ENDSIM)
             if r == "running":
@@ -977,6 +996,11 @@ class Machine:
                 if p == ENDSCEN:
                     self.features.add("beh-terminate")
                     if not a.scen.running:
+                        if self.lenient:
+                            # (only when naming a failure by a defect model: the agent
+                            # simply takes no action, as the implementation does)
+                            acts.append([a.name, []])
+                            continue
                         raise Unjudged("terminate by an agent whose scenario has ended")
                     top = a.scen.is_top
                     self.stop_scenario(a.scen)
@@ -1035,9 +1059,10 @@ class Machine:
                 S = m.scen
                 others = [x for T_ in self.running_scenarios(S) for x in T_.monitors
                           if x is not m and not x.finished]
-                if others:
+                if others and not self.lenient:
                     # whether the other monitors of the stopped scenarios still run in this
-                    # step is not documented
+                    # step is not documented (when only naming a failure by a defect model:
+                    # they do, as in the implementation)
                     raise Unjudged("monitor terminate with sibling monitors")
                 stopped.append(S)
                 if S.is_top:
